@@ -25,4 +25,33 @@ theorem dialer_facts : Generated.dialerFacts =
      "Close: if d.closed", "Close: if d.redialer!=nil", "Close: d.redialer.Stop()", "Close: d.closed=true",
      "Dial: if d.active", "Dial: if d.closed", "Dial: d.active=true", "Dial: d.reconnTime=d.reconnMinTime"] := by decide
 
+/-- who closes what, statement by statement — the code facts that connect the machines of `Props.C10` to the objects a
+    socket owns: the core dialer, once closed, closes its transport dialer (when that has a Close); the stream transports'
+    dialers close their connection handshaker (so `closed_handshaker_holds_nothing_open` and
+    `closed_handshaker_has_no_waiters` apply to a connection attempt still shaking hands: its connection is closed and the
+    Dial waiting for it returns); the handshaker's Start closes a connection given to a closed handshaker, Close closes
+    every connection at work or queued, the worker closes a connection whose handshake failed or finished after Close;
+    `conn.Close` closes whenever not yet closed; the ws listener's Close wakes Accept and closes what is queued, Accept
+    fails once the listener is not running, `ServeHTTP` refuses when not running and `handler` closes a connection that
+    was upgraded across Close.  Any edit to these functions re-opens this obligation. -/
+theorem close_paths : Generated.closeShapes = [
+  ("internal/core:dialer.Close", ["d.Lock()", "defer d.Unlock()", "if d.closed", ">return mangos.ErrClosed", "if d.redialer!=nil", ">d.redialer.Stop()", "d.closed=true", "if c,ok:=d.d.(interface{}); ok", ">_=c.Close()", "return nil"]),
+  ("internal/core:listener.Close", ["l.Lock()", "defer l.Unlock()", "if l.closed", ">return mangos.ErrClosed", "l.closed=true", "return l.l.Close()"]),
+  ("transport:connHandshaker.Start", ["conn:=p.(connHandshakerPipe)", "h.Lock()", "if h.closed", ">h.Unlock()", ">_=conn.Close()", ">return ", "h.workq[conn]=true", "h.Unlock()", "go h.worker(conn)"]),
+  ("transport:connHandshaker.Close", ["h.Lock()", "h.closed=true", "h.cv.Broadcast()", "range h.workq", ">_=conn.Close()", "for len(h.doneq)!=0", ">item:=h.doneq[0]", ">h.doneq=h.doneq[1:]", ">if item.c!=nil", ">>_=item.c.Close()", "h.Unlock()"]),
+  ("transport:connHandshaker.worker", ["item:=&connHandshakerItem{…}", "item.e=conn.handshake()", "h.Lock()", "defer h.Unlock()", "delete(h.workq,conn)", "if item.e!=nil", ">_=item.c.Close()", ">item.c=nil", "else", ">if h.closed", ">>item.e=mangos.ErrClosed", ">>_=item.c.Close()", "h.doneq=append(h.doneq,item)", "h.cv.Broadcast()"]),
+  ("transport:connHandshaker.Wait", ["h.Lock()", "defer h.Unlock()", "for len(h.doneq)==0&&!h.closed", ">h.cv.Wait()", "if h.closed", ">return nil,mangos.ErrClosed", "item:=h.doneq[0]", "h.doneq=h.doneq[1:]", "return item.c,item.e"]),
+  ("transport:conn.Close", ["p.Lock()", "defer p.Unlock()", "if !p.closed", ">p.closed=true", ">return p.c.Close()", "return nil"]),
+  ("transport/tcp:dialer.Close", ["d.hs.Close()", "return nil"]),
+  ("transport/tcp:listener.Close", ["l.once.Do(func{…})", "return nil"]),
+  ("transport/tlstcp:dialer.Close", ["d.hs.Close()", "return nil"]),
+  ("transport/tlstcp:listener.Close", ["l.once.Do(func{…})", "return nil"]),
+  ("transport/ipc:dialer.Close", ["d.hs.Close()", "return nil"]),
+  ("transport/ipc:listener.Close", ["l.once.Do(func{…})", "return nil"]),
+  ("transport/ws:listener.Close", ["l.lock.Lock()", "defer l.lock.Unlock()", "if l.closed", ">return mangos.ErrClosed", "if l.listener!=nil", ">_=l.listener.Close()", "l.closed=true", "l.running=false", "l.cv.Broadcast()", "range l.pending", ">_=ws.Close()", "l.pending=nil", "return nil"]),
+  ("transport/ws:listener.Accept", ["var w *wsPipe", "l.lock.Lock()", "defer l.lock.Unlock()", "for", ">if !l.running", ">>return nil,mangos.ErrClosed", ">if len(l.pending)==0", ">>l.cv.Wait()", ">>continue", ">w=l.pending[len(l.pending)-1]", ">l.pending=l.pending[:len(l.pending)-1]", ">break", "return w,nil"]),
+  ("transport/ws:listener.ServeHTTP", ["matched:=false", "range websocket.Subprotocols(r)", ">if subProto==l.proto.SelfName+\".sp.nanomsg.org\"", ">>matched=true", "if !matched", ">http.Error(w,\"SP protocol mis-match\",http.StatusBadRequest)", ">return ", "l.lock.Lock()", "if !l.running", ">l.lock.Unlock()", ">http.Error(w,\"No handler at that address\",http.StatusNotFound)", ">return ", "ug:=l.ug", "l.lock.Unlock()", "ws,err:=ug.Upgrade(w,r,nil)", "if err!=nil", ">return ", "verifUpgraded(ws)", "l.handler(ws,r)"]),
+  ("transport/ws:listener.handler (head)", ["l.lock.Lock()", "if !l.running", ">l.lock.Unlock()", ">_=ws.Close()", ">return "])
+] := by decide
+
 end Obl.Core
